@@ -46,6 +46,9 @@ def jobs(tier, seed):
                     'tv': True, 'origin0': True})
     for gi, (cy, cx) in enumerate([(a, b) for a in compositions(2) for b in compositions(3)]):
         out.append({'name': 'all-symbolic-2x3-g%d' % gi, 'shape': [2, 3], 'chunks': [list(cy), list(cx)], 'maxd': 1.0, 'sym': 'all', 'metric': 'EUCLIDEAN', 'dy': -1.0})
+    for gi, (cy, cx) in enumerate([((1, 1), (1, 2)), ((1, 1), (3,))]):
+        out.append({'name': 'all-symbolic-2x3-lat-lon-dims-g%d' % gi, 'shape': [2, 3], 'chunks': [list(cy), list(cx)], 'maxd': 1.0, 'sym': 'all', 'metric': 'EUCLIDEAN', 'dy': -2.0,
+                    'dims': ['lat', 'lon']})
     for gi, (cy, cx) in enumerate([((1, 1), (1, 2)), ((2,), (2, 1))]):
         out.append({'name': 'all-symbolic-2x3-int32-g%d' % gi, 'shape': [2, 3], 'chunks': [list(cy), list(cx)], 'maxd': 1.0, 'sym': 'all', 'metric': 'EUCLIDEAN', 'dy': -1.0, 'dtype': 'int32'})
     if tier != 'quick':
@@ -79,10 +82,11 @@ def body(ctx, job):
         kw['target_values'] = [ctx.real('target_value')]
     chunks = job['chunks']
     for fn in ('proximity', 'allocation', 'direction'):
-        a_np = raster(data.copy(), ys=ys, xs=xs, name='r')
-        a_da = raster(data.copy(), ys=ys, xs=xs, name='r', chunks=chunks)
-        ref = vals(ctx.call('proximity:' + fn, a_np, 'x', 'y', **kw))
-        res = ctx.call('proximity:' + fn, a_da, 'x', 'y', **kw)
+        dn = tuple(job.get('dims', ('y', 'x')))
+        a_np = raster(data.copy(), dims=dn, ys=ys, xs=xs, name='r')
+        a_da = raster(data.copy(), dims=dn, ys=ys, xs=xs, name='r', chunks=chunks)
+        ref = vals(ctx.call('proximity:' + fn, a_np, dn[1], dn[0], **kw))
+        res = ctx.call('proximity:' + fn, a_da, dn[1], dn[0], **kw)
         lazy = isinstance(res.data, symda.Array)
         ctx.check('result-stays-dask-backed', lazy)
         out = vals(res)
